@@ -79,10 +79,19 @@ Theorem C39_profiles_agree : forall v,
   step_threshold_of true v = step_threshold_of false v.
 Proof. exact step_threshold_profiles. Qed.
 
-(* NOT PROVED (partial): that the converted value from_seconds f of an accepted
-   number is a non-negative NtpDuration.  It needs the rounding analysis of
-   f - floor f; the check's monitor tests it on every accepted threshold of
-   every run instead. *)
+(* The converted value is a non-negative NtpDuration: for every float that is
+   not NaN, not infinite and not below zero, from_seconds (floor, subtraction,
+   multiplication and the two saturating casts on binary64) is >= 0; hence
+   every direction of every accepted threshold is absent or >= 0. *)
+Theorem C39_duration_nonneg : forall f,
+  f64_is_nan f = false -> f64_is_infinite f = false -> f64_lt0 f = false ->
+  0 <= from_seconds f.
+Proof. exact duration_nonneg. Qed.
+
+Theorem C39_thresholds_nonneg : forall debug v st,
+  step_threshold_of debug v = Ok st ->
+  (forall d, st_forward st = Some d -> 0 <= d) /\ (forall d, st_backward st = Some d -> 0 <= d).
+Proof. exact thresholds_nonneg. Qed.
 
 (* non-vacuity: { forward = 10, backward = 20 } and 0.5 are accepted with the
    expected durations; { forward = -5 }, { forward = nan }, { backward = -inf }
@@ -108,3 +117,5 @@ Print Assumptions C39_good_number_bits.
 Print Assumptions C39_loaded_section.
 Print Assumptions C39_no_crash_partial.
 Print Assumptions C39_profiles_agree.
+Print Assumptions C39_duration_nonneg.
+Print Assumptions C39_thresholds_nonneg.
